@@ -165,7 +165,7 @@ func (c *Ctx) Reject(fnName string, sel Sel, conj ...string) bool {
 				why = fmt.Sprintf("the branch where %s holds still reaches `%s`", strings.Join(conj, " && "), DescribeInstr(in))
 				continue
 			}
-			if !cd.outer.Block().Dominates(in.Block()) {
+			if !cd.outer.Block().Dominates(in.Block()) && bypasses(fn, cd.outer.Block(), in, as) {
 				if why == "" {
 					why = fmt.Sprintf("site `%s` is reachable without passing the test", DescribeInstr(in))
 				}
@@ -510,4 +510,88 @@ func (c *Ctx) EveryCyclePasses(fnName string, sel Sel) bool {
 	}
 	c.OK(rule, construct, fmt.Sprintf("%d site(s)", len(ins)))
 	return true
+}
+
+// bypasses reports whether site can be reached from the entry without going
+// through block test, using only edges whose condition does not contradict
+// the atoms conj (a path that took `x == 0` cannot be one on which `x == 4`
+// holds: earlier cases of a switch chain are no way around a later case's test).
+func bypasses(fn *ssa.Function, test *ssa.BasicBlock, site ssa.Instruction, conj []Atom) bool {
+	seen := map[*ssa.BasicBlock]bool{}
+	target := site.Block()
+	var walk func(b *ssa.BasicBlock) bool
+	walk = func(b *ssa.BasicBlock) bool {
+		if b == test || seen[b] {
+			return false
+		}
+		if b == target {
+			return true
+		}
+		seen[b] = true
+		if len(b.Instrs) > 0 {
+			if ifi, ok := b.Instrs[len(b.Instrs)-1].(*ssa.If); ok {
+				for k, s := range b.Succs {
+					contra := false
+					for _, f := range condFacts(ifi, ifi.Cond, k == 0, 0) {
+						if f.If != ifi {
+							continue
+						}
+						for _, a := range conj {
+							if Contradicts(f.Atom, a) {
+								contra = true
+							}
+						}
+					}
+					if !contra && walk(s) {
+						return true
+					}
+				}
+				return false
+			}
+		}
+		for _, s := range b.Succs {
+			if walk(s) {
+				return true
+			}
+		}
+		return false
+	}
+	if len(fn.Blocks) == 0 {
+		return true
+	}
+	return walk(fn.Blocks[0])
+}
+
+// Contradicts: atoms a and b cannot hold together (decided only for the simple
+// forms: t == k1 vs t == k2, t == k vs t != k, boolean t vs !t, and t <= k1 vs t >= k2 with k2 > k1).
+func Contradicts(a, b Atom) bool {
+	a, b = a.norm(), b.norm()
+	if SameAtom(a, b.Negate()) {
+		return true
+	}
+	sameVec := func(x, y Lin) bool {
+		if len(x.Coef) != len(y.Coef) {
+			return false
+		}
+		for t, c := range x.Coef {
+			if y.Coef[t] != c {
+				return false
+			}
+		}
+		return true
+	}
+	if a.Kind == EQ && b.Kind == EQ && sameVec(a.L, b.L) && a.L.K != b.L.K {
+		return true
+	}
+	if a.Kind == LE && b.Kind == LE && sameVec(a.L, b.L.scale(-1)) {
+		// Σ + ka <= 0 and -Σ + kb <= 0  =>  Σ <= -ka and Σ >= kb : empty iff kb > -ka
+		return b.L.K > -a.L.K
+	}
+	if a.Kind == EQ && b.Kind == LE && sameVec(a.L, b.L) {
+		return -a.L.K+b.L.K > 0 // Σ = -ka ; need Σ + kb <= 0
+	}
+	if b.Kind == EQ && a.Kind == LE && sameVec(a.L, b.L) {
+		return -b.L.K+a.L.K > 0
+	}
+	return false
 }
